@@ -74,7 +74,8 @@ def jobs(tier, seed):
     out = []
     for si, shape in enumerate(C04.SHAPES):
         tops = sorted(u for i, u, par, t in C04.SHAPES[shape] if par is None)
-        mvs = [None] + tops
+        kids = sorted(u for i, u, par, t in C04.SHAPES[shape] if par is not None)
+        mvs = [None] + tops + kids          # the requested main variant may be a nested one (looked up by UID)
         n = 0
         for arch in ("x86_64", "src"):
             for pi, popt in enumerate(PATH_OPTIONS):
@@ -87,8 +88,8 @@ def jobs(tier, seed):
                         pass
                     else:
                         o["images"] = {}
-                    for u in tops:
-                        o["paths"][u] = list(popt)
+                    for u in tops + kids:
+                        o["paths"][u] = list(popt) if u in tops else list(PATH_OPTIONS[(pi + 1 + len(u)) % len(PATH_OPTIONS)])
                     out.append({"harness": "general_mirrors", "params": {"shape": shape, "opts": o, "focus": C04._focus(shape, o, k), "main_variant": mv,
                                                                        "float_timestamp": [None, None, 1400000000.75, None, -2.5][k % 5]}})
     return out
@@ -99,6 +100,6 @@ META = {
     "expected_covers": {"general_mirrors": ["written"]},
     "assumptions": C04.META["assumptions"] + [
         "the written text is read by an independent configparser.ConfigParser(interpolation=None, optionxform=str) through the same INI stub",
-        "main variant: none (default = alphabetically first top-level variant) or each top-level variant; float timestamps from a pool, integer timestamps symbolic",
+        "main variant: none (default = alphabetically first top-level variant), each top-level variant, or each nested variant by its UID; float timestamps from a pool, integer timestamps symbolic",
     ],
 }
